@@ -2363,6 +2363,9 @@ struct evrrul_s {
 	/* unrolled cache */
 	size_t ncch;
 	echs_instant_t cch[GRP_CCH_OFF + GRP_CCH_OFF];
+	/* the period (group) the proto instant E.FROM was generated in,
+	 * nul for the very first fill */
+	echs_instant_t anc;
 };
 
 static echs_event_t next_evrrul(echs_evstrm_t, bool popp);
@@ -2466,6 +2469,9 @@ refill(struct evrrul_s *restrict strm)
 	for (size_t j = 0U; j < GRP_CCH_OFF; j++) {
 		strm->cch[j] = strm->e.from;
 	}
+	/* and the period it stems from, a shifted proto instant may well
+	 * lie in a different month or year than the one it was generated in */
+	strm->cch[GRP_CCH_OFF] = strm->anc;
 
 	/* now go and see who can help us */
 	switch (rr->freq) {
@@ -2501,6 +2507,7 @@ refill(struct evrrul_s *restrict strm)
 	if (strm->ncch >= GRP_CCH_OFF) {
 		/* keep one for the next refill */
 		strm->e.from = strm->cch[--strm->ncch];
+		strm->anc = strm->cch[strm->ncch + GRP_CCH_OFF];
 	} else {
 		/* take a note that we're at the end of the stream */
 		strm->e.from = echs_nul_instant();
